@@ -1,2 +1,563 @@
-(* Proofs for C07 (work in progress placeholder; replaced below) *)
-From Asynkit Require Import Base.Prelude Coro.Tree Coro.Native Coro.Monitor.
+(* Proofs for C07 (Monitor out-of-band channel).
+   A. the CPS transformers of Monitor.v (what a caller's `await m.aawait(..)` is, as a
+      tree) run exactly as the direct evaluator call_run / call_resume says: for ALL
+      coroutine bodies, callers' continuations and stores;
+   B. on every body [emb t] (t : mtree, no oob swallowed by a close) the model -- which
+      finds out-of-band data by looking at the state flag -- produces, for EVERY history
+      of calls and inputs, the trace of the reference semantics of MonitorSpec.v, which
+      reads them off the explicit TOob nodes (generic simulation of sessions);
+   C. idle after every completed call, re-entrant use refused without effect;
+   D. nested monitors; E. helpers; F. examples (non-vacuity, necessity of the carve-out). *)
+From Asynkit Require Import Base.Prelude Coro.Tree Coro.Native Coro.Monitor Coro.MonitorSpec.
+Open Scope Z_scope.
+
+(* ------------------------------------------------------------- store cells *)
+Lemma cell_inj : forall m m', cell m = cell m' -> m = m'.
+Proof. unfold cell; intros; lia. Qed.
+
+Lemma mstate_set_same : forall s m z, mstate (setcell s m z) m = z.
+Proof. intros. unfold mstate, setcell, update. simpl. rewrite Z.eqb_refl. reflexivity. Qed.
+
+Lemma mstate_set_other : forall s m m' z, m' <> m -> mstate (setcell s m' z) m = mstate s m.
+Proof.
+  intros. unfold mstate, setcell, update. simpl.
+  destruct (cell m =? cell m') eqn:E; [|reflexivity].
+  apply Z.eqb_eq, cell_inj in E. congruence.
+Qed.
+
+(* prefix the events of a run *)
+Definition pre (evs : list event) (r : list event * store * stop) : list event * store * stop :=
+  let '(e, s, st) := r in (evs ++ e, s, st).
+
+Lemma pre_nil : forall r, pre [] r = r.
+Proof. intros [[e s] st]; reflexivity. Qed.
+
+Lemma pre_cons : forall ev evs r, pre (ev :: evs) r = (let '(e, s, st) := pre evs r in (ev :: e, s, st)).
+Proof. intros ev evs [[e s] st]; reflexivity. Qed.
+
+(* ------------------------------------------- CPS trees = direct evaluator *)
+Lemma close_k_run : forall c s kont,
+  run s (close_k c kont) =
+  let '(evs, s', (o, r)) := close_run s c in pre evs (run s' (kont o r)).
+Proof.
+  induction c as [v|e|ev c IH|x k IH|x v c IH|y k IH]; intros s kont; simpl.
+  - rewrite pre_nil; reflexivity.
+  - destruct (is_genexit e); rewrite pre_nil; reflexivity.
+  - rewrite IH. destruct (close_run s c) as [[evs s'] [o r]]. rewrite pre_cons.
+    destruct (pre evs (run s' (kont o r))) as [[e0 s0] st0]. reflexivity.
+  - apply IH.
+  - apply IH.
+  - rewrite pre_nil; reflexivity.
+Qed.
+
+Definition run_of_mstop (m : Z) (kont : cobj -> res -> coro) (r : list event * store * mstop)
+  : list event * store * stop :=
+  let '(evs, s', st) := r in
+  match st with
+  | MEnd o x => pre evs (run s' (kont o x))
+  | MSusp y k => (evs, s', SSusp y (relay_cont m k kont))
+  end.
+
+Lemma relay_k_run : forall c m first s kont,
+  run s (relay_k m first c kont) = run_of_mstop m kont (relay_run m first s c).
+Proof.
+  induction c as [v|e|ev c IH|x k IH|x v c IH|y k IH]; intros m first s kont; simpl.
+  - rewrite pre_nil; reflexivity.
+  - rewrite pre_nil; reflexivity.
+  - rewrite IH. destruct (relay_run m first s c) as [[evs s'] [o x|y k]]; simpl.
+    + rewrite pre_cons. destruct (pre evs (run s' (kont o x))) as [[e0 s0] st0]. reflexivity.
+    + reflexivity.
+  - apply IH.
+  - apply IH.
+  - unfold mstate. destruct (st (lookup s (cell m)) =? -1); simpl.
+    + rewrite pre_nil; reflexivity.
+    + reflexivity.
+Qed.
+
+Lemma relay_cont_run : forall m k kont s i,
+  run s (relay_cont m k kont i) = run_of_mstop m kont (resume_run m s k i).
+Proof.
+  intros m k kont s i. unfold relay_cont, resume_run.
+  destruct i as [v|e]; [apply relay_k_run|].
+  destruct e; try apply relay_k_run.
+  rewrite close_k_run. destruct (close_run s (k (Throw GeneratorExit))) as [[evs s'] [o r]].
+  reflexivity.
+Qed.
+
+Lemma asend_k_run : forall m o i s kont,
+  run s (asend_k m o i kont) = run_of_mstop m kont (asend_run m s o i).
+Proof.
+  intros m o i s kont. unfold asend_k, asend_run, mstate. simpl.
+  destruct (st (lookup s (cell m)) =? 0); simpl.
+  - destruct (first_call o i) as [c|[o' e]]; simpl.
+    + apply relay_k_run.
+    + rewrite pre_nil; reflexivity.
+  - rewrite pre_nil; reflexivity.
+Qed.
+
+(* the continuation a call stores at a real suspension *)
+Definition call_cont (m : Z) (cl : call) (k : input -> coro) (kont : cobj -> res -> coro) :=
+  relay_cont m k (fun o' r => kont o' (post cl r)).
+
+Lemma run_of_post : forall m cl kont r,
+  run_of_mstop m (fun o' x => kont o' (post cl x)) r =
+  let '(evs, s', st) := r in
+  match post_stop cl st with
+  | MEnd o x => pre evs (run s' (kont o x))
+  | MSusp y k => (evs, s', SSusp y (call_cont m cl k kont))
+  end.
+Proof. intros m cl kont [[evs s'] [o x|y k]]; reflexivity. Qed.
+
+Definition run_of_call (m : Z) (cl : call) (kont : cobj -> res -> coro) (r : list event * store * mstop) :=
+  let '(evs, s', st) := r in
+  match st with
+  | MEnd o x => pre evs (run s' (kont o x))
+  | MSusp y k => (evs, s', SSusp y (call_cont m cl k kont))
+  end.
+
+Theorem call_k_run : forall m o cl s kont,
+  run s (call_k m o cl kont) = run_of_call m cl kont (call_run m s o cl).
+Proof.
+  intros. unfold call_k, call_run. destruct (skips cl o).
+  - simpl. rewrite pre_nil; reflexivity.
+  - rewrite asend_k_run, run_of_post.
+    destruct (asend_run m s o (call_input cl)) as [[evs s'] stp]. reflexivity.
+Qed.
+
+Theorem call_cont_run : forall m cl k kont s i,
+  run s (call_cont m cl k kont i) = run_of_call m cl kont (call_resume m cl s k i).
+Proof.
+  intros. unfold call_cont, call_resume. rewrite relay_cont_run, run_of_post.
+  destruct (resume_run m s k i) as [[evs s'] stp]. reflexivity.
+Qed.
+(* ------------------------------------------------ generic simulation of sessions *)
+Section Sim.
+  Variables O K O' K' : Type.
+  Variable first : store -> O -> call -> list event * store * gstop O K.
+  Variable resume : call -> store -> K -> input -> list event * store * gstop O K.
+  Variable first' : store -> O' -> call -> list event * store * gstop O' K'.
+  Variable resume' : call -> store -> K' -> input -> list event * store * gstop O' K'.
+  Variable RO : O -> O' -> Prop.
+  Variable RK : store -> K -> K' -> Prop.
+
+  Definition Rstop (s : store) (a : gstop O K) (b : gstop O' K') : Prop :=
+    match a, b with
+    | GEnd o r, GEnd o' r' => RO o o' /\ r = r'
+    | GSusp y k, GSusp y' k' => y = y' /\ RK s k k'
+    | _, _ => False
+    end.
+
+  Definition R3 (a : list event * store * gstop O K) (b : list event * store * gstop O' K') : Prop :=
+    let '(evs, s, st) := a in let '(evs', s', st') := b in evs = evs' /\ s = s' /\ Rstop s st st'.
+
+  Hypothesis Hfirst : forall s o o' cl, RO o o' -> R3 (first s o cl) (first' s o' cl).
+  Hypothesis Hresume : forall cl s k k' i, RK s k k' -> R3 (resume cl s k i) (resume' cl s k' i).
+
+  Lemma gsteps_sim : forall cl ins s k k', RK s k k' ->
+    let '(tr, s2, o2) := @gsteps O K resume cl s k ins in
+    let '(tr', s2', o2') := @gsteps O' K' resume' cl s k' ins in
+    tr = tr' /\ s2 = s2' /\ match o2, o2' with
+                            | Some o, Some o' => RO o o'
+                            | None, None => True
+                            | _, _ => False
+                            end.
+  Proof.
+    induction ins as [|i t IH]; intros s k k' Hk; simpl; auto.
+    pose proof (Hresume cl s k k' i Hk) as H.
+    destruct (resume cl s k i) as [[evs s1] st1], (resume' cl s k' i) as [[evs' s1'] st1'].
+    destruct H as (-> & -> & H).
+    destruct st1 as [o r|y k1], st1' as [o' r'|y' k1']; simpl in H; try contradiction.
+    - destruct H as [Ho ->]. auto.
+    - destruct H as [-> Hk1]. specialize (IH s1' k1 k1' Hk1).
+      destruct (@gsteps O K resume cl s1' k1 t) as [[tr s2] o2],
+               (@gsteps O' K' resume' cl s1' k1' t) as [[tr' s2'] o2'].
+      destruct IH as (-> & -> & Ho). auto.
+  Qed.
+
+  Theorem gsession_sim : forall h s o o', RO o o' ->
+    @gsession O K first resume s o h = @gsession O' K' first' resume' s o' h.
+  Proof.
+    induction h as [|[cl ins] t IH]; intros s o o' Ho; simpl; auto.
+    pose proof (Hfirst s o o' cl Ho) as H.
+    destruct (first s o cl) as [[evs s1] st1], (first' s o' cl) as [[evs' s1'] st1'].
+    destruct H as (-> & -> & H).
+    destruct st1 as [o1 r|y k1], st1' as [o1' r'|y' k1']; simpl in H; try contradiction.
+    - destruct H as [Ho1 ->]. simpl. f_equal. apply IH, Ho1.
+    - destruct H as [-> Hk1]. pose proof (gsteps_sim cl ins s1' k1 k1' Hk1) as G.
+      destruct (@gsteps O K resume cl s1' k1 ins) as [[tr s2] o2],
+               (@gsteps O' K' resume' cl s1' k1' ins) as [[tr' s2'] o2'].
+      destruct G as (-> & -> & G). simpl. f_equal.
+      destruct o2 as [o2|], o2' as [o2'|]; try contradiction; auto.
+  Qed.
+End Sim.
+
+(* ----------------------------------------- the model on [emb t] = the reference *)
+Definition obj_ok (o : tobj) : Prop :=
+  match o with TNew t => no_lost t | TAt k => forall i, no_lost (k i) | TFinished => True end.
+
+Definition RO (o : cobj) (o' : tobj) : Prop := o = obj_emb o' /\ obj_ok o'.
+Definition RK (m : Z) (s : store) (k : input -> coro) (k' : input -> mtree) : Prop :=
+  k = (fun i => emb (k' i)) /\ (forall i, no_lost (k' i)) /\ mstate s m = 1.
+
+Notation R3m m := (@R3 cobj (input -> coro) tobj (input -> mtree) RO (RK m)).
+
+Lemma trelay_cons : forall m first ev evs s st,
+  trelay m first (ev :: evs, s, st) =
+  let '(e, s', g) := trelay m first (evs, s, st) in (ev :: e, s', g).
+Proof.
+  intros. unfold trelay. destruct st as [v|e|y k|m1 d k]; try reflexivity.
+  destruct (m1 =? m); reflexivity.
+Qed.
+
+Lemma relay_run_emb : forall t m first s, mstate s m = 1 -> no_lost t ->
+  R3m m (lift3 gstop_of (relay_run m first s (emb t))) (trelay m first (trun s t)).
+Proof.
+  induction t as [v|e|ev t IH|y k IH|m0 d k IH|m0 d ta IHa tn IHn];
+    intros m first s Hs Hn; simpl in *.
+  - repeat split.
+  - repeat split.
+  - specialize (IH m first s Hs Hn).
+    destruct (relay_run m first s (emb t)) as [[evs s1] st1].
+    destruct (trun s t) as [[evs' s1'] st1'].
+    cbv beta iota. rewrite trelay_cons.
+    destruct (trelay m first (evs', s1', st1')) as [[evs2 s2] st2].
+    simpl in IH |- *. destruct IH as (-> & -> & H). repeat split; auto.
+  - rewrite Hs. simpl. repeat split; auto.
+  - fold (mstate s m0). destruct (mstate s m0 =? 1) eqn:Ea; simpl.
+    + destruct (m0 =? m) eqn:Em.
+      * apply Z.eqb_eq in Em; subst m0.
+        unfold setst. simpl. fold (setcell s m (-1)). rewrite mstate_set_same. simpl.
+        repeat split; auto.
+      * apply Z.eqb_neq in Em. fold (setcell s m0 (-1)).
+        rewrite mstate_set_other by auto. rewrite Hs. simpl. repeat split; auto.
+        rewrite mstate_set_other by auto. exact Hs.
+    + apply IH; auto.
+  - contradiction.
+Qed.
+
+Ltac fin := unfold RO, RK; simpl; repeat split; auto.
+
+Lemma tclose_cons : forall m ev evs s st,
+  tclose m (ev :: evs, s, st) = let '(e, s', g) := tclose m (evs, s, st) in (ev :: e, s', g).
+Proof. intros. unfold tclose. destruct st as [v|e|y k|m1 d k]; reflexivity. Qed.
+
+Definition close_end (m : Z) (r : list event * store * (cobj * option exn))
+  : list event * store * gstop cobj (input -> coro) :=
+  let '(evs, s', (o, x)) := r in (evs, setcell s' m 0, GEnd o (RExc (exn_after_close x))).
+
+Lemma close_run_emb : forall t m s, no_lost t ->
+  R3m m (close_end m (close_run s (emb t))) (tclose m (trun s t)).
+Proof.
+  induction t as [v|e|ev t IH|y k IH|m0 d k IH|m0 d ta IHa tn IHn]; intros m s Hn; simpl in *.
+  - fin.
+  - destruct (is_genexit e); fin.
+  - specialize (IH m s Hn).
+    destruct (close_run s (emb t)) as [[evs s1] [o1 x1]].
+    destruct (trun s t) as [[evs' s1'] st1'].
+    cbv beta iota. rewrite tclose_cons.
+    destruct (tclose m (evs', s1', st1')) as [[evs2 s2] st2].
+    simpl in IH |- *. destruct IH as (-> & -> & H). repeat split; auto.
+  - fin.
+  - fold (mstate s m0). destruct (mstate s m0 =? 1) eqn:Ea; simpl.
+    + fin.
+    + apply IH; auto.
+  - contradiction.
+Qed.
+
+Lemma tpost_R3 : forall m cl a b, R3m m a b ->
+  R3m m (let '(evs, s, st) := a in
+         (evs, s, match st with GEnd o x => GEnd o (post cl x) | GSusp y k => GSusp y k end))
+        (tpost cl b).
+Proof.
+  intros m cl [[evs s] st] [[evs' s'] st'] (-> & -> & H). simpl.
+  destruct st as [o x|y k], st' as [o' x'|y' k']; simpl in *; try contradiction.
+  - destruct H as [[Ho1 Ho2] ->]. repeat split; auto.
+  - destruct H as [-> (H1 & H2 & H3)]. repeat split; auto.
+Qed.
+
+Lemma lift3_post : forall cl (r : list event * store * mstop),
+  lift3 gstop_of (let '(evs, s', st) := r in (evs, s', post_stop cl st)) =
+  let '(evs, s, st) := lift3 gstop_of r in
+  (evs, s, match st with GEnd o x => GEnd o (post cl x) | GSusp y k => GSusp y k end).
+Proof. intros cl [[evs s] [o x|y k]]; reflexivity. Qed.
+
+Lemma call_resume_emb : forall m cl s k k' i, RK m s k k' ->
+  R3m m (lift3 gstop_of (call_resume m cl s k i)) (tcall_resume m cl s k' i).
+Proof.
+  intros m cl s k k' i (-> & Hn & Hs). unfold call_resume, tcall_resume.
+  rewrite lift3_post. apply tpost_R3. unfold resume_run.
+  destruct i as [v|e].
+  - apply relay_run_emb; auto.
+  - destruct e; try (apply relay_run_emb; auto).
+    pose proof (close_run_emb (k' (Throw GeneratorExit)) m s (Hn _)) as H.
+    destruct (close_run s (emb (k' (Throw GeneratorExit)))) as [[evs s1] [o1 x1]]. exact H.
+Qed.
+
+Lemma call_run_emb : forall m s o o' cl, RO o o' ->
+  R3m m (lift3 gstop_of (call_run m s o cl)) (tcall_run m s o' cl).
+Proof.
+  intros m s o o' cl [-> Hok]. unfold call_run, tcall_run.
+  assert (Hsk : skips cl (obj_emb o') = tskips cl o') by (destruct cl, o'; reflexivity).
+  rewrite Hsk. destruct (tskips cl o').
+  - simpl. fin.
+  - unfold asend_run. destruct (mstate s m =? 0) eqn:E0.
+    + rewrite lift3_post. apply tpost_R3.
+      destruct o' as [t|k'|]; simpl in *.
+      * destruct (call_input cl) as [v|e]; simpl.
+        -- destruct v; simpl; try (fin; fail).
+           apply relay_run_emb; auto using mstate_set_same.
+        -- fin.
+      * apply relay_run_emb; auto using mstate_set_same.
+      * destruct (call_input cl); simpl; fin.
+    + simpl. fin.
+      destruct cl; reflexivity.
+Qed.
+
+(* Every history of calls, every body: the model (out-of-band data recognised by the
+   state flag) produces the trace of the reference (explicit oob nodes). *)
+Theorem msession_tsession : forall m t s h, no_lost t ->
+  msession m s (New (emb t)) h = tsession m s (TNew t) h.
+Proof.
+  intros m t s h Hn. unfold msession, tsession.
+  apply gsession_sim with (RO := RO) (RK := RK m).
+  - intros; apply call_run_emb; auto.
+  - intros; apply call_resume_emb; auto.
+  - split; [reflexivity|exact Hn].
+Qed.
+
+(* ------------------------------------------------------------ idle after use *)
+Lemma relay_run_idle : forall c m first s evs s' o r,
+  relay_run m first s c = (evs, s', MEnd o r) -> mstate s' m = 0.
+Proof.
+  induction c as [v|e|ev c IH|x k IH|x v c IH|y k IH]; intros m first s evs s' o r H; simpl in H.
+  - inversion H; apply mstate_set_same.
+  - inversion H; apply mstate_set_same.
+  - destruct (relay_run m first s c) as [[evs1 s1] st1] eqn:E. inversion H; subst.
+    eapply IH; eauto.
+  - eapply IH; eauto.
+  - eapply IH; eauto.
+  - destruct (mstate s m =? -1); inversion H. apply mstate_set_same.
+Qed.
+
+Lemma resume_run_idle : forall m s k i evs s' o r,
+  resume_run m s k i = (evs, s', MEnd o r) -> mstate s' m = 0.
+Proof.
+  intros m s k i evs s' o r H. unfold resume_run in H.
+  destruct i as [v|e]; [eapply relay_run_idle; eauto|].
+  destruct e; try (eapply relay_run_idle; eauto; fail).
+  destruct (close_run s (k (Throw GeneratorExit))) as [[evs1 s1] [o1 x1]].
+  inversion H. apply mstate_set_same.
+Qed.
+
+(* a GeneratorExit at a real suspension (close() of the relay) always ends the call *)
+Lemma resume_run_close_ends : forall m s k, exists evs s' o r,
+  resume_run m s k (Throw GeneratorExit) = (evs, s', MEnd o r) /\ mstate s' m = 0.
+Proof.
+  intros. unfold resume_run.
+  destruct (close_run s (k (Throw GeneratorExit))) as [[evs1 s1] [o1 x1]].
+  do 4 eexists. split; [reflexivity|apply mstate_set_same].
+Qed.
+
+Lemma asend_run_idle : forall m s o i evs s' o' r,
+  mstate s m = 0 -> asend_run m s o i = (evs, s', MEnd o' r) -> mstate s' m = 0.
+Proof.
+  intros m s o i evs s' o' r H0 H. unfold asend_run in H. rewrite H0 in H. simpl in H.
+  destruct (first_call o i) as [c|[o1 e]].
+  - eapply relay_run_idle; eauto.
+  - inversion H. apply mstate_set_same.
+Qed.
+
+Lemma call_run_idle : forall m s o cl evs s' o' r,
+  mstate s m = 0 -> call_run m s o cl = (evs, s', MEnd o' r) -> mstate s' m = 0.
+Proof.
+  intros m s o cl evs s' o' r H0 H. unfold call_run in H. destruct (skips cl o).
+  - inversion H; subst; auto.
+  - destruct (asend_run m s o (call_input cl)) as [[evs1 s1] st1] eqn:E.
+    destruct st1 as [o1 r1|y k]; simpl in H; inversion H; subst.
+    eapply asend_run_idle; eauto.
+Qed.
+
+Lemma call_resume_idle : forall m cl s k i evs s' o r,
+  call_resume m cl s k i = (evs, s', MEnd o r) -> mstate s' m = 0.
+Proof.
+  intros m cl s k i evs s' o r H. unfold call_resume in H.
+  destruct (resume_run m s k i) as [[evs1 s1] st1] eqn:E.
+  destruct st1 as [o1 r1|y k1]; simpl in H; inversion H; subst.
+  eapply resume_run_idle; eauto.
+Qed.
+
+(* ----------------------------------------------------------- re-entrant use *)
+Lemma post_reentered : forall cl,
+  post cl (RExc (RuntimeError RtMonitorReentered)) = RExc (RuntimeError RtMonitorReentered).
+Proof. destruct cl; reflexivity. Qed.
+
+Lemma call_run_reentered : forall m s o cl,
+  mstate s m <> 0 -> skips cl o = false ->
+  call_run m s o cl = ([], s, MEnd o (RExc (RuntimeError RtMonitorReentered))).
+Proof.
+  intros m s o cl H Hs. unfold call_run, asend_run. rewrite Hs.
+  destruct (mstate s m =? 0) eqn:E; [apply Z.eqb_eq in E; contradiction|].
+  simpl. rewrite post_reentered. reflexivity.
+Qed.
+
+Lemma call_k_reentered : forall m s o cl kont,
+  mstate s m <> 0 -> skips cl o = false ->
+  run s (call_k m o cl kont) = run s (kont o (RExc (RuntimeError RtMonitorReentered))).
+Proof.
+  intros. rewrite call_k_run, call_run_reentered by assumption. simpl. apply pre_nil.
+Qed.
+
+(* ------------------------------------------------------------ nested monitors *)
+Definition kemb (k : input -> mtree) : input -> coro := fun i => emb (k i).
+
+Lemma mstate_unfold : forall s m, st (lookup s (cell m)) = mstate s m.
+Proof. reflexivity. Qed.
+
+Opaque lookup update cell.
+
+(* an oob of the OUTER monitor A issued under the relay of B: B passes it outward
+   untouched (a real suspension for B, B stays active), A's relay consumes it *)
+Lemma nested_outer_oob : forall A B fa fb s d k kontB,
+  A <> B -> mstate s A = 1 -> mstate s B = 1 ->
+  relay_run A fa s (relay_k B fb (emb (TOob A d k)) kontB) =
+  ([], setcell (setcell (setcell s A (-1)) A 1) A 0,
+   MEnd (Suspended (relay_cont B (kemb k) kontB)) (RExc (OOBData d))).
+Proof.
+  intros A B fa fb s d k kontB Hne HA HB. simpl.
+  rewrite mstate_unfold, HA. simpl.
+  fold (setcell s A (-1)). rewrite mstate_unfold, mstate_set_other by auto. rewrite HB. simpl.
+  rewrite mstate_set_same. reflexivity.
+Qed.
+
+(* an oob of the INNER monitor B: consumed by B's relay; A's relay only sees what
+   B's driver (kontB) does next *)
+Lemma nested_inner_oob : forall A B fa fb s d k kontB,
+  A <> B -> mstate s B = 1 ->
+  relay_run A fa s (relay_k B fb (emb (TOob B d k)) kontB) =
+  relay_run A fa (setcell (setcell (setcell s B (-1)) B 1) B 0)
+            (kontB (Suspended (kemb k)) (RExc (OOBData d))).
+Proof.
+  intros A B fa fb s d k kontB Hne HB. simpl.
+  rewrite mstate_unfold, HB. simpl.
+  fold (setcell s B (-1)). rewrite mstate_unfold, mstate_set_same. reflexivity.
+Qed.
+
+(* a real suspension passes through both relays unchanged *)
+Lemma nested_real : forall A B fa fb s y k kontB,
+  mstate s A = 1 -> mstate s B = 1 ->
+  relay_run A fa s (relay_k B fb (emb (TSusp y k)) kontB) =
+  ([], s, MSusp y (relay_cont B (kemb k) kontB)).
+Proof.
+  intros A B fa fb s y k kontB HA HB. simpl.
+  rewrite mstate_unfold, HB. simpl. rewrite HA. reflexivity.
+Qed.
+
+Transparent lookup update cell.
+
+(* what is sent / thrown at such a suspension reaches the body's continuation through B *)
+Lemma relay_cont_forward : forall B k kontB i,
+  i <> Throw GeneratorExit -> relay_cont B (kemb k) kontB i = relay_k B false (emb (k i)) kontB.
+Proof.
+  intros B k kontB i H. unfold relay_cont, kemb.
+  destruct i as [v|e]; [reflexivity|]. destruct e; try reflexivity. contradiction.
+Qed.
+
+(* ------------------------------------------- answers reach the oob that asked *)
+(* the body reaches an oob node of the driving monitor: the call ends with OOBData d and
+   the object is that node's continuation; the next call's input is what oob() returns
+   (aawait v) / raises (athrow e) *)
+Lemma oob_then_answer : forall m s t evs s1 d k,
+  mstate s m = 0 -> trun (setcell s m 1) t = (evs, s1, TsOob m d k) ->
+  tcall_run m s (TNew t) (CAwait VNone) =
+    (evs, setcell (setcell s1 m 1) m 0, GEnd (TAt k) (RExc (OOBData d)))
+  /\ (forall v', tfirst_call (TAt k) (call_input (CAwait v')) = inl (k (Send v')))
+  /\ (forall e, tfirst_call (TAt k) (call_input (CThrow e)) = inl (k (Throw e))).
+Proof.
+  intros m s t evs s1 d k H0 H. split; [|split; reflexivity].
+  unfold tcall_run. simpl. rewrite H0. simpl. rewrite H. simpl. rewrite Z.eqb_refl. reflexivity.
+Qed.
+
+(* ---------------------------------------------------------------- helpers *)
+Definition map_stop (f : res -> res) (r : list event * store * mstop) : list event * store * mstop :=
+  let '(evs, s, st) := r in (evs, s, match st with MEnd o x => MEnd o (f x) | _ => st end).
+
+Lemma helpers_first : forall m s o,
+  (* start() = aawait(None); OOBData d -> return d; a return -> RuntimeError *)
+  call_run m s o CStart =
+    map_stop (fun x => match x with
+                       | RExc (OOBData d) => RVal d
+                       | RVal _ => RExc (RuntimeError (RtOther 99))
+                       | _ => x end) (call_run m s o (CAwait VNone))
+  (* try_await(v, sentinel) = aawait(v); OOBData -> return sentinel *)
+  /\ (forall v sen, call_run m s o (CTry v sen) =
+        map_stop (fun x => match x with RExc (OOBData _) => RVal sen | _ => x end)
+                 (call_run m s o (CAwait v)))
+  (* aclose() on a finished coroutine returns None and touches nothing *)
+  /\ call_run m s Finished CClose = ([], s, MEnd Finished (RVal VNone))
+  (* aclose() otherwise = athrow(GeneratorExit); GeneratorExit or a return -> None;
+     an oob() issued while closing -> RuntimeError *)
+  /\ (o <> Finished -> call_run m s o CClose =
+        map_stop (fun x => match x with
+                           | RExc GeneratorExit | RVal _ => RVal VNone
+                           | RExc (OOBData _) => RExc (RuntimeError RtIgnoredGenExit)
+                           | _ => x end) (call_run m s o (CThrow GeneratorExit))).
+Proof.
+  intros m s o. unfold call_run. simpl. repeat split.
+  - destruct (asend_run m s o (Send VNone)) as [[evs s'] [o' [v|e]|y k]]; try reflexivity.
+    all: try (destruct e; reflexivity).
+  - intros v sen. destruct (asend_run m s o (Send v)) as [[evs s'] [o' [v0|e]|y k]]; try reflexivity.
+    all: try (destruct e; reflexivity).
+  - intros Ho. destruct o; try contradiction; simpl;
+      match goal with |- context [asend_run ?a ?b ?c ?d] =>
+        destruct (asend_run a b c d) as [[evs s'] [o' [v0|e]|y k0]]; try reflexivity;
+        try (destruct e; reflexivity) end.
+Qed.
+
+Lemma helpers_resume : forall m cl s k i,
+  call_resume m cl s k i = map_stop (post cl) (resume_run m s k i).
+Proof. intros. unfold call_resume, map_stop. destruct (resume_run m s k i) as [[evs s'] [o x|y k']]; reflexivity. Qed.
+
+(* ------------------------------------------------------ non-vacuity examples *)
+(* d1 = await M0.oob(1); log d1; await tok(11); await M0.oob(2); return 5 *)
+Definition ex_body : mtree :=
+  TOob 0 (VInt 1) (fun i => match i with
+    | Send v => TEff (ERecv v) (TSusp (VInt 11) (fun _ =>
+                  TOob 0 (VInt 2) (fun j => match j with Send w => TRet w | Throw e => TRaise e end)))
+    | Throw e => TRaise e end).
+
+Example ex_no_lost : no_lost ex_body.
+Proof. simpl. intros [v|e]; simpl; auto. intros _ [w|e]; exact I. Qed.
+
+Definition ex_history : list (call * list input) :=
+  [(CAwait VNone, []); (CAwait (VInt 7), [Send (VInt 31)]); (CAwait (VInt 5), [])].
+
+Example ex_session :
+  map (map (fun g : gobs => (fst (fst g), snd (fst g), mstate (snd g) 0)))
+      (msession 0 [] (New (emb ex_body)) ex_history)
+  = [ [([], ORaise (OOBData (VInt 1)), 0)];
+      [([ERecv (VInt 7)], OYield (VInt 11), 1); ([], ORaise (OOBData (VInt 2)), 0)];
+      [([], OReturn (VInt 5), 0)] ]
+  /\ oob_seen (msession 0 [] (New (emb ex_body)) ex_history) = [VInt 1; VInt 2].
+Proof. split; vm_compute; reflexivity. Qed.
+
+(* the carve-out is necessary: an oob() swallowed by a close() of its frame leaves the flag
+   at -1, and the next REAL suspension (token 12) reaches the driver as OOBData 12 *)
+Definition ex_lost : mtree :=
+  TOob 0 (VInt 1) (fun i => match i with
+    | Throw GeneratorExit => TLost 0 (VInt 5) (TSusp (VInt 12) (fun _ => TRet VNone)) (TRet VNone)
+    | _ => TRet VNone end).
+
+Example ex_lost_confuses :
+  let h := [(CAwait VNone, []); (CThrow GeneratorExit, [])] in
+  map (map (fun g : gobs => snd (fst g))) (msession 0 [] (New (emb ex_lost)) h)
+    = [[ORaise (OOBData (VInt 1))]; [ORaise (OOBData (VInt 12))]]
+  /\ map (map (fun g : gobs => snd (fst g))) (tsession 0 [] (TNew ex_lost) h)
+    = [[ORaise (OOBData (VInt 1))]; [OYield (VInt 12)]].
+Proof. split; vm_compute; reflexivity. Qed.
+
+Example ex_nested : forall kontB,
+  relay_run 0 false [(cell 1, VInt 1); (cell 0, VInt 1)]
+            (relay_k 1 false (emb (TOob 0 (VInt 9) (fun _ => TRet VNone))) kontB)
+  = ([], setcell (setcell (setcell [(cell 1, VInt 1); (cell 0, VInt 1)] 0 (-1)) 0 1) 0 0,
+     MEnd (Suspended (relay_cont 1 (kemb (fun _ => TRet VNone)) kontB)) (RExc (OOBData (VInt 9)))).
+Proof. intros. apply nested_outer_oob; [lia|reflexivity|reflexivity]. Qed.
